@@ -239,13 +239,13 @@ def two_core(d):
 SAME_TOL = 1e-9
 # fingerprint -> (denominator: drawings of whole-graph trees / of graphs with a core / of graphs with a core in chain mode,
 #                 3 x the largest hits/denominator seen on the unchanged tree over the calibration seeds, absolute slack)
-RATE_LIMITS = {     # calibration: VERIF_SEED 1..12 quick, 1..3 thorough on the unchanged tree (largest rate seen in the comment)
-    'tree_centre_child_alignment': ('tree', 0.55, 0),       # 0.359 (more than a third of all trees: 1.5 x, not 3 x)
-    'tree_rank_collision': ('tree', 0.075, 3),              # 0.024
-    'stale_core_constraint': ('core', 0.12, 3),             # 0.039
-    'chain_bend_unaligned': ('chain', 0.035, 3),            # 0.011
-    'padded_gap_lost': ('core', 0.018, 3),                  # 0.006
-    'large_graph_overlap': ('core', 0.0045, 3),             # 0.0015
+RATE_LIMITS = {     # calibration: VERIF_SEED 1..12 quick, 1..3 thorough on the unchanged tree; per tier (limit, largest rate seen)
+    'tree_centre_child_alignment': ('tree', {'quick': 0.55, 'thorough': 0.70}, 0),       # 0.359 / 0.458: more than a third of all trees, so 1.5 x, not 3 x
+    'tree_rank_collision': ('tree', {'quick': 0.075, 'thorough': 0.075}, 3),             # 0.024 / 0.024
+    'stale_core_constraint': ('core', {'quick': 0.12, 'thorough': 0.30}, 3),             # 0.039 / 0.100 (larger graphs in the thorough tier)
+    'chain_bend_unaligned': ('chain', {'quick': 0.035, 'thorough': 0.035}, 3),           # 0.011 / 0.009
+    'padded_gap_lost': ('core', {'quick': 0.018, 'thorough': 0.018}, 3),                 # 0.006 / 0.003
+    'large_graph_overlap': ('core', {'quick': 0.0045, 'thorough': 0.0045}, 3),           # 0.0015 / 0.0007
 }
 GROWTH = {0: (1, 1.0), 1: (2, 1.0), 2: (1, -1.0), 3: (2, -1.0)}     # HolaOpts::defaultTreeGrowthDir as the harness numbers it -> (index into an A N tuple, sign)
 GENERIC_ASSERT_SITES = {'exception:assert:faces.cpp:u_!=_nullptr'}     # sites named in the text of the catch-all line `exception:assert`
@@ -280,14 +280,14 @@ def drawing_diff(dA, dB):
     return m
 
 
-def first_difference(dA, dB):
+def first_difference(dA, dB, first_edges=()):
     A = {n[0]: n for n in dA['A']['N']}
     B = {n[0]: n for n in dB['A']['N']}
+    EB = {(e[0], e[1]): e[2] for e in dB['A']['E']}
     for k in sorted(A):
         if k not in B or any(abs(float(A[k][j]) - float(B[k][j])) > SAME_TOL for j in range(1, 5)):
             return 'node %d: judged %s, reference %s' % (k, [float(x) for x in A[k][1:]], [float(x) for x in B[k][1:]] if k in B else None)
-    EB = {(e[0], e[1]): e[2] for e in dB['A']['E']}
-    for (a, b, pts) in dA['A']['E']:
+    for (a, b, pts) in sorted(dA['A']['E'], key=lambda e: 0 if (e[0], e[1]) in first_edges else 1):     # the rejected routes first
         q = EB.get((a, b))
         if q is None or len(q) != len(pts) or any(abs(float(x) - float(y)) > SAME_TOL for x, y in zip(pts, q)):
             return 'route %d-%d: judged %s, reference %s' % (a, b, [float(x) for x in pts], [float(x) for x in q] if q else None)
@@ -462,7 +462,8 @@ def classify_core(case, r, info):
     info['trace_reproduces_drawing_within'] = diff
     if not diff <= SAME_TOL:
         return None, ('the reference pipeline (harness copy of doHOLA, hola.cpp:59-439) does not reproduce the judged drawing (max difference %g; '
-                      '%s): the mechanism of no known finding can be established for it' % (diff, first_difference(d, t)))
+                      '%s): the mechanism of no known finding can be established for it'
+                      % (diff, first_difference(d, t, set(tuple(be['edge']) for be in info.get('bad_edges', [])))))
     Pf, Cf = t['L'].get('P_final'), t['L'].get('core_final')
     if not Pf or not Cf:
         return None, 'trace has no snapshot of P / core'
@@ -582,6 +583,24 @@ def classify(case, r, info):
     return classify_core(case, r, info)
 
 
+def trace_copy_in_sync():
+    """is traceHOLA in harness/c14_hola.cpp still the text of doHOLA in the tree under test (apart from the `log` lambda)?
+    Informational (coverage.trace_copy_in_sync): when hola.cpp is edited the copy keeps describing the OLD pipeline, rejected
+    drawings it does not reproduce are then reported as VIOLATIONs, never absorbed."""
+    try:
+        src = open(os.path.join(C.COLA, 'libdialect', 'hola.cpp')).read()
+        har = open(os.path.join(C.VERIF, 'harness', 'c14_hola.cpp')).read()
+        a = src.index('void dialect::doHOLA(Graph &G, const HolaOpts &holaOpts, Logger *logger) {')
+        body = src[a:].split('\n')[1:]
+        h = har[har.index('static void traceHOLA('):har.index('// ---- end of the copied statements')].split('\n')[1:]
+        body = [l for l in body[:len(h) + 2] if 'logger->log(H, name)' not in l]
+        h = [l for l in h if 'snap(H, name.c_str())' not in l]
+        n = min(len(h), len(body)) - 1
+        return h[:n] == body[:n]
+    except Exception:
+        return False
+
+
 def exc_fingerprint(msg):
     a = re.search(r'expression: (.*?)\s+at line (\d+) of (\S+)', msg)
     if a:   # failed COLA_ASSERT
@@ -658,6 +677,7 @@ def run(tier):
     rng = C.SplitMix64(res.seed)
     n_random, maxn, n_degen = (1000, 40, 60) if tier == "quick" else (2000, 80, 150)
     cases = corpus_cases() + shipped_cases(tier) + random_cases(rng, n_random, maxn)
+    cases.sort(key=lambda c: 0 if c['family'].startswith('corpus:seeded_demo') else 1)      # stable: the demo inputs of stored seeded changes first
     degen = [G.gen_case(rng.fork(), 'degenerate_start', min(maxn, 30)) for _ in range(n_degen)]
     cases += degen
     tmpdir = tempfile.mkdtemp(prefix='c14_', dir=os.path.join(C.BUILD))
@@ -763,7 +783,7 @@ def run(tier):
     denom = {'tree': n_tree, 'core': n_core, 'chain': n_chain}
     rate_report = {}
     for f, (dk, lim, slack) in sorted(RATE_LIMITS.items()):
-        allowed = lim * denom[dk] + slack
+        allowed = lim[tier if tier in lim else 'quick'] * denom[dk] + slack
         rate_report[f] = {'hits': known[f], 'of': denom[dk], 'kind': dk, 'allowed': round(allowed, 1)}
         if known[f] > allowed:
             objs = known_objs[f]
@@ -786,7 +806,7 @@ def run(tier):
             new_viol += 1
 
     res.cov.update({
-        'known_finding_rates': rate_report,
+        'known_finding_rates': rate_report, 'trace_copy_in_sync': trace_copy_in_sync(),
         'explanation': 'Level other. PROVED (Coq, all inputs): the oracle hola_ok is sound and complete for the declaratively stated output '
                        'conditions of doHOLA (same node ids, same edge multiset, sizes kept, no positive-area node overlap, every route >=2 '
                        'points / axis-parallel / ends within the padded end-node boxes / through no third node, every returned SepPair holds - '
